@@ -5,7 +5,7 @@ constraints chosen among the discipline outputs (vlib/gen/formulation_systems.py
 handed to MDF (with a drawn inner MDA), to IDF and - for acyclic systems - to DisciplinaryOpt.  The functions
 exposed by each ``formulation.optimization_problem`` are evaluated (original functions, un-normalised design
 vectors) and compared with the closed forms of the plain-numpy model; MDF's Jacobian is furthermore rebuilt from
-IDF's functions alone through the implicit function theorem.  Thorough tier: strictly convex problems are
+IDF's functions alone through the implicit function theorem.  Both tiers: a few strictly convex problems are
 optimised with SLSQP under every formulation and compared with the exact optimum of the reduced QP.
 """
 
@@ -28,6 +28,7 @@ from vlib.gen.formulation_systems import (
     reduced_quadratic,
     solve_convex_qp,
     topological_order,
+    weak_couplings,
 )
 
 logging.getLogger("gemseo").setLevel(logging.ERROR)
@@ -46,12 +47,17 @@ RULE = (
     "MDANewtonRaphson, MDAGaussSeidel, MDAJacobi, MDANewtonRaphson} at tolerance 1e-13, Simple or JSON grammars, "
     "formulation class or create_scenario, IDF n_processes in {1, 2} (threads), disciplines whose own default design inputs "
     "differ from the design point, and - linear systems - disciplines declaring io.set_linear_relationships() so that the "
-    "formulations build their functions through the is_linear branches.  Checked against the plain-numpy model: design-space contents and order of "
+    "formulations build their functions through the is_linear branches; in a quarter of the cases every design variable is "
+    "integer-typed and MDF / DisciplinaryOpt are evaluated at the integer-dtype vectors that get_current_value() returns "
+    "or a user writes.  Every array returned by a function (value, Jacobian) is kept without copy while the functions are "
+    "evaluated at the other points and must still hold what it held when it was returned.  Checked against the plain-numpy model: design-space contents and order of "
     "MDF / IDF / DisciplinaryOpt, IDF's rejection of a space lacking a coupling, values and Jacobians of objective and "
     "constraints of every formulation, IDF consistency constraints at y*(x) and at perturbed targets (with the "
     "documented |ub-lb| normalisation), start_at_equilibrium, and MDF's Jacobian rebuilt from IDF's functions only. "
-    "Non-trivial = the system has a cycle through >= 2 disciplines and the objective reads a coupling; distinct = "
-    "structural hash of (system, design point, functions, MDA, normalisation).  Thorough tier also: strictly convex "
+    "A few strictly convex problems are also optimised with SLSQP (normalize_design_space on/off) under every formulation: "
+    "optimum against the exact QP optimum, and every (point, objective, gradient) record of the database against the "
+    "closed forms.  Non-trivial = the system has a cycle through >= 2 disciplines and the objective reads a coupling; distinct = "
+    "structural hash of (system, design point, functions, MDA, normalisation).  The optimisation problems are strictly convex "
     "quadratic problems on linear systems solved by SLSQP under MDF, IDF (and DisciplinaryOpt when acyclic) against the "
     "exact optimum of the reduced QP (active-set enumeration)."
 )
@@ -96,7 +102,11 @@ def build_space(entries: list[dict], sizes: dict, values: dict):
             bounds["lower_bound"] = np.array(e["lo"], dtype=float)
         if e["hi"] is not None:
             bounds["upper_bound"] = np.array(e["hi"], dtype=float)
-        ds.add_variable(n, size=sizes[n], value=np.array(values[n], dtype=float), **bounds)
+        if e.get("type") == "integer":
+            bounds = {k: v.astype(int) for k, v in bounds.items()}
+            ds.add_variable(n, size=sizes[n], type_="integer", value=np.array(values[n], dtype=float).astype(int), **bounds)
+        else:
+            ds.add_variable(n, size=sizes[n], value=np.array(values[n], dtype=float), **bounds)
     return ds
 
 
@@ -145,30 +155,51 @@ def build_formulation(name: str, discs: list, objective: str, ds, p: dict, via: 
     return formulation, owner
 
 
-def evaluate(ctx, fn, vec: np.ndarray, dim: int, jac_first: bool, label: str, with_jac: bool = True):
-    """(value as 1-D array, Jacobian as 2-D array) of an MDOFunction at an un-normalised design vector."""
+def evaluate(ctx, fn, vec: np.ndarray, dim: int, jac_first: bool, label: str, with_jac: bool = True, keep: list | None = None):
+    """(value as 1-D array, Jacobian as 2-D array) of an MDOFunction at an un-normalised design vector.
+
+    ``keep`` collects (label, returned array itself, copy taken at once) for :func:`check_kept`.
+    """
     n = vec.size
-    if not with_jac:
-        v = np.atleast_1d(np.asarray(fn.evaluate(vec.copy())))
-        ctx.check(v.shape == (dim,), "shapes", f"{label}: value of shape {v.shape}, expected ({dim},)")
-        return v.astype(float), None
+
+    def _remember(what, raw):
+        if keep is not None and isinstance(raw, np.ndarray):
+            keep.append((f"{label}: {what}", raw, raw.copy()))
 
     def _val():
-        v = np.atleast_1d(np.asarray(fn.evaluate(vec.copy())))
+        raw = fn.evaluate(vec.copy())
+        _remember("value", raw)
+        v = np.atleast_1d(np.asarray(raw))
         ctx.check(v.shape == (dim,), "shapes", f"{label}: value of shape {v.shape}, expected ({dim},)")
         return v.astype(float)
 
     def _jac():
-        j = np.asarray(fn.jac(vec.copy()))
+        raw = fn.jac(vec.copy())
+        _remember("Jacobian", raw)
+        j = np.asarray(raw)
         ok = j.shape == (dim, n) or (dim == 1 and j.shape == (n,))
         ctx.check(ok, "shapes", f"{label}: Jacobian of shape {j.shape}, expected ({dim}, {n})")
         return np.array(j, dtype=float).reshape(dim, n)
 
+    if not with_jac:
+        return _val(), None
     if jac_first:
         j = _jac()
         return _val(), j
     v = _val()
     return v, _jac()
+
+
+def check_kept(ctx, keep: list, formulation: str) -> None:
+    """The arrays returned by earlier evaluations still hold what they held when they were returned.
+
+    (A caller - an optimiser's history, a database - keeps the arrays it gets; a function that hands out its reused
+    internal buffer silently turns the derivative at x1 into the derivative at the last evaluated point.)
+    """
+    for label, raw, copy in keep:
+        same = raw.shape == copy.shape and bool(np.array_equal(raw, copy, equal_nan=True))
+        ctx.check(same, "returned_arrays_stay_valid",
+                  f"{label} returned by {formulation} was modified by a later evaluation of the functions", now=raw, when_returned=copy)
 
 
 def close(ctx, got: np.ndarray, ref: np.ndarray, tol: float, oracle: str, label: str, **info):
@@ -364,6 +395,8 @@ def _case_pointwise(p, ctx):
         ctx.cls("self_coupled_discipline")
     if any(len([n for n in outs if n in couplings]) > 1 for outs in model.outputs_of):
         ctx.cls("discipline_with_two_coupling_outputs")
+        if any(len({sizes[n] for n in outs if n in couplings}) > 1 for outs in model.outputs_of):
+            ctx.cls("discipline_with_two_couplings_of_unequal_sizes")
     if sizes[p["objective"]] > 1:
         ctx.cls("vector_objective")
     if p["maximize"]:
@@ -380,6 +413,9 @@ def _case_pointwise(p, ctx):
     mdf_entries = [e for e in p["ds"] if e["name"] not in model.producer or e["name"] in keep]
     if keep:
         ctx.cls("mdf_given_couplings")
+        weak_kept = [n for n in keep if n in weak_couplings(model)]
+        if weak_kept and p["mda"]["main"] == "MDAJacobi":
+            ctx.cls("mdf_jacobi_given_weak_couplings")  # the only main MDA whose input grammar holds the weak couplings
     discs = new_disciplines()
     mdf, _ = build_formulation("MDF", discs, p["objective"], build_space(mdf_entries, sizes, ds_values), p, via,
                                p["constraints"], p["maximize"])
@@ -394,10 +430,22 @@ def _case_pointwise(p, ctx):
         ctx.cls("class:" + name)
         if ctx.known(name):
             mdf_with_jac = False  # the values are still compared
+    integer_x = any(e.get("type") == "integer" for e in p["ds"])
+    if integer_x:
+        ctx.cls("integer_design_variables")
+        # the design vector of MDF holds integer variables only: its current value is an integer-dtype array
+        current = mdf.design_space.get_current_value()
+        ctx.check(np.array_equal(current, vector(mdf_names, x1)), "design_space", "MDF: current value of the design space changed",
+                  current=current)
+        if current.dtype.kind == "i":
+            ctx.cls("integer_dtype_design_vector")
+    kept: list = []
     for tag, x, sol, tot in (("x", x1, sol1, tot1), ("x + dx", x2, sol2, tot2), ("x again", x1, sol1, tot1)):
         vec = vector(mdf_names, x)
+        if integer_x:  # what get_current_value() returns / what a user writes as array([1, 2])
+            vec = mdf.design_space.get_current_value() if tag == "x" else vec.astype(int)
         for (label, outs, spec), fn, dim in zip(fns, mdf_fns, dims):
-            val, jac = evaluate(ctx, fn, vec, dim, jac_first, f"MDF {label} at {tag}", with_jac=mdf_with_jac)
+            val, jac = evaluate(ctx, fn, vec, dim, jac_first, f"MDF {label} at {tag}", with_jac=mdf_with_jac, keep=kept)
             exp_val = ref.standard_form(ref.mdf_value(outs, sol), spec)
             close(ctx, val, exp_val, 1e-9, "mdf_values", f"MDF {label} at {tag}", mda=p["mda"])
             if not mdf_with_jac:
@@ -406,6 +454,8 @@ def _case_pointwise(p, ctx):
             close(ctx, jac, exp_jac, 1e-8, "mdf_jacobians", f"MDF {label} at {tag}", mda=p["mda"], names=mdf_names)
             if tag == "x":
                 mdf_jac_at_x1.append(jac)
+
+    check_kept(ctx, kept, "MDF")
 
     # ------------------------------------------------------------------ IDF
     discs = new_disciplines()
@@ -443,12 +493,13 @@ def _case_pointwise(p, ctx):
         points.reverse()
     points.append(("(x + dx, y*(x + dx))", x2, sol2, True))
     idf_at_solution = None
+    kept = []
     for tag, x, targets, consistent in points:
         data = {**x, **{n: targets[n] for n in couplings}}
         vec = vector(idf_names, data)
         got = []
         for (label, outs, spec), fn, dim in zip(fns, idf_fns, dims):
-            val, jac = evaluate(ctx, fn, vec, dim, jac_first, f"IDF {label} at {tag}")
+            val, jac = evaluate(ctx, fn, vec, dim, jac_first, f"IDF {label} at {tag}", keep=kept)
             exp_val = ref.standard_form(ref.idf_value(outs, data), spec)
             exp_jac = ref.standard_form(ref.idf_jacobian(outs, data, idf_names), {"value": 0, "positive": spec.get("positive", spec.get("maximize", False))})
             close(ctx, val, exp_val, 1e-11, "idf_values", f"IDF {label} at {tag}")
@@ -461,7 +512,7 @@ def _case_pointwise(p, ctx):
         cons_jacs = []
         for c, outs in zip(consistency, cons_outputs):
             dim = sum(sizes[o] for o in outs)
-            val, jac = evaluate(ctx, c, vec, dim, jac_first, f"IDF consistency {'+'.join(outs)} at {tag}")
+            val, jac = evaluate(ctx, c, vec, dim, jac_first, f"IDF consistency {'+'.join(outs)} at {tag}", keep=kept)
             if consistent:
                 worst = float(np.max(np.abs(val), initial=0.0))
                 ctx.check(worst <= 1e-10, "consistency_vanishes",
@@ -473,6 +524,8 @@ def _case_pointwise(p, ctx):
             cons_jacs.append(jac)
         if consistent and x is x1:
             idf_at_solution = (got, cons_jacs)
+
+    check_kept(ctx, kept, "IDF")
 
     # ------------------------------------------------------------------ MDF's Jacobian from IDF's functions alone
     # c(x, y) = 0 defines y*(x):  dy*/dx = -(dc/dy)^-1 dc/dx  and  d f(x, y*(x))/dx = df/dx + df/dy dy*/dx
@@ -531,14 +584,18 @@ def _case_pointwise(p, ctx):
         names = check_names(ctx, ref, dopt, [e["name"] for e in mdf_entries], "mdf", "DisciplinaryOpt")
         problem = dopt.optimization_problem
         ctx.check(len(problem.constraints) == len(p["constraints"]), "functions", "DisciplinaryOpt: number of constraints")
+        kept = []
         for tag, x, sol, tot in (("x", x1, sol1, tot1), ("x + dx", x2, sol2, tot2)):
             vec = vector(names, x)
+            if integer_x:
+                vec = dopt.design_space.get_current_value() if tag == "x" else vec.astype(int)
             for (label, outs, spec), fn, dim in zip(fns, [problem.objective, *problem.constraints], dims):
-                val, jac = evaluate(ctx, fn, vec, dim, jac_first, f"DisciplinaryOpt {label} at {tag}")
+                val, jac = evaluate(ctx, fn, vec, dim, jac_first, f"DisciplinaryOpt {label} at {tag}", keep=kept)
                 exp_val = ref.standard_form(ref.mdf_value(outs, sol), spec)
                 exp_jac = ref.standard_form(ref.mdf_jacobian(outs, tot, names), {"value": 0, "positive": spec.get("positive", spec.get("maximize", False))})
                 close(ctx, val, exp_val, 1e-11, "disciplinary_opt_values", f"DisciplinaryOpt {label} at {tag}")
                 close(ctx, jac, exp_jac, 1e-10, "disciplinary_opt_jacobians", f"DisciplinaryOpt {label} at {tag}", names=names)
+        check_kept(ctx, kept, "DisciplinaryOpt")
         ctx.cls("disciplinary_opt_checked")
 
     if info["n_scc_ge2"] >= 1 and objective_on_y:
@@ -550,6 +607,53 @@ def _case_pointwise(p, ctx):
 # --------------------------------------------------------------------------- optimisation oracle (thorough tier)
 SLSQP = {"algo_name": "SLSQP", "max_iter": 300, "ftol_rel": 1e-15, "ftol_abs": 1e-15, "xtol_rel": 1e-15, "xtol_abs": 1e-15,
          "eq_tolerance": 1e-8, "ineq_tolerance": 1e-8}
+
+
+def check_history(ctx, name: str, problem, model: CoupledSystem, twin, quad, normalize_ds: bool) -> None:
+    """Every (point, objective, gradient) recorded in the database during the optimisation against the closed forms.
+
+    The optimiser's history keeps the arrays the functions returned: a gradient that is silently overwritten by later
+    evaluations (or a record attached to the wrong point) shows up here and nowhere in the final result.
+    """
+    h, g0, f0 = quad
+    names = list(problem.design_space.variable_names)
+    sizes = {n: problem.design_space.get_size(n) for n in names}
+    database = problem.database
+    f_hist, x_hist = database.get_function_history("obj", with_x_vect=True)
+    g_hist, xg_hist = database.get_gradient_history("obj", with_x_vect=True)
+    ctx.check(len(f_hist) >= 1 and len(g_hist) >= 1, "history", f"{name}: the database holds no objective / gradient record")
+
+    def split(vec):
+        out, k = {}, 0
+        for n in names:
+            out[n] = np.asarray(vec[k : k + sizes[n]], dtype=float)
+            k += sizes[n]
+        return out
+
+    def reference(vec):
+        data = split(vec)
+        if name == "IDF":
+            grad = twin.gradient(data)
+            return twin.value(data), np.concatenate([grad.get(n, np.zeros(sizes[n])) for n in names])
+        xs = np.concatenate([data[n] for n in model.x_names])
+        grad_x = h @ xs + g0
+        grad = {n: grad_x[model.x_offset[n] : model.x_offset[n] + model.sizes[n]] for n in model.x_names}
+        return float(f0 + g0 @ xs + 0.5 * xs @ h @ xs), np.concatenate([grad[n] for n in names])
+
+    for k in range(len(f_hist)):
+        ref_f, _ = reference(x_hist[k])
+        err = abs(float(np.ravel(f_hist[k])[0]) - ref_f)
+        ctx.check(err <= 1e-8 * (1 + abs(ref_f)), "history", f"{name}: objective recorded at point {k} of the history differs from the closed form by {err:.3e}",
+                  normalize_design_space=normalize_ds)
+    for k in range(len(g_hist)):
+        _, ref_g = reference(xg_hist[k])
+        got = np.asarray(g_hist[k], dtype=float).reshape(-1)
+        ctx.check(got.shape == ref_g.shape, "history", f"{name}: gradient record of shape {got.shape}")
+        err = float(np.max(np.abs(got - ref_g), initial=0.0))
+        ctx.check(err <= 1e-7 * (1 + float(np.max(np.abs(ref_g), initial=0.0))), "history",
+                  f"{name}: gradient of the objective recorded at point {k} of {len(g_hist)} differs from the closed-form gradient at that point by {err:.3e}",
+                  normalize_design_space=normalize_ds, recorded=got, expected=ref_g)
+    ctx.cls("opt:normalized_design_space" if normalize_ds else "opt:unnormalized_design_space")
 
 
 def case_optimize(p, ctx):
@@ -626,8 +730,10 @@ def _case_optimize(p, ctx):
         scenario = create_scenario(discs, "obj", ds, formulation_name=name, **formulation_settings(name, p))
         if con is not None:
             scenario.add_constraint(con["output"], constraint_type="ineq", value=value, positive=con["positive"])
-        scenario.execute(**SLSQP)
+        normalize_ds = bool(p.get("normalize_design_space", True))
+        scenario.execute(**SLSQP, normalize_design_space=normalize_ds)
         res = scenario.optimization_result
+        check_history(ctx, name, scenario.formulation.optimization_problem, model, twin, (h, g0, f0), normalize_ds)
         n_iter = len(scenario.formulation.optimization_problem.database)
         if n_iter >= SLSQP["max_iter"]:
             ctx.cls("inconclusive:slsqp_max_iter")
@@ -663,6 +769,6 @@ ORACLES = {"pointwise": case_pointwise, "optimize": case_optimize}
 
 
 def run(ctx):
-    ctx.drive("pointwise", formulation_cases(), case_pointwise, quick=190, thorough=500)
-    if ctx.tier == "thorough":
-        ctx.drive("optimize", convex_problems(), case_optimize, quick=1, thorough=4)
+    ctx.drive("pointwise", formulation_cases(), case_pointwise, quick=150, thorough=500)
+    # a few optimisations in the quick tier too: the history oracle needs an optimiser keeping what the functions return
+    ctx.drive("optimize", convex_problems(), case_optimize, quick=5, thorough=4)
